@@ -46,6 +46,19 @@ def tracesOf (p : Platform) : List (String × Nat × List String) :=
 def traces2Of (p : Platform) : List (String × Nat × String × String × List String) :=
   (Gen.C20.traces2.lookup p.key).getD []
 
+/-- (method, pid, native call whose answer about the process came back EMPTY, native calls of that
+    no-fault run) — the runs whose call sequence differs from the plain one -/
+def tracesEmptyOf (p : Platform) : List (String × Nat × String × List String) :=
+  (Gen.C20.tracesEmpty.lookup p.key).getD []
+
+/-- every (method, `os.path.*` question) the generated call sequences contain: plain runs, runs with an
+    empty native answer, alternative paths after a first fault -/
+def pathProbesSeen (p : Platform) : List (String × String) :=
+  let isQ (c : String) : Bool := "os.path.".isPrefixOf c
+  ((tracesOf p).flatMap fun r => (r.2.2.filter isQ).map fun c => (r.1, c)) ++
+  ((tracesEmptyOf p).flatMap fun r => (r.2.2.2.filter isQ).map fun c => (r.1, c)) ++
+  ((traces2Of p).flatMap fun r => ((r.2.2.1 :: r.2.2.2.2).filter isQ).map fun c => (r.1, c))
+
 def Mode.ofTag? (s : String) : Option Mode :=
   if s == "fallback" then some .fallback else if s == "rerun" then some .rerun else none
 
